@@ -115,13 +115,13 @@ def check(run):
         from props.c12 import kept_link_scripted
         kept_link_scripted(run, binary, jbin, quick, prop='C02')
         scen = []
-        for i in range(170 if quick else 2500):
+        for i in range(170 if quick else 12000):
             sc = sync_e2e.gen_scenario(rng, 'mixed' if i % 3 else 'clean')
             if i % 9 == 4:
                 sc.placement = rng.choice(['RL', 'LR', 'RR'])
             scen.append(sc)
         # link-heavy destinations: every destination entry that conflicts is a link to a populated decoy
-        for i in range(40 if quick else 500):
+        for i in range(40 if quick else 3000):
             sc = sync_e2e.gen_scenario(rng, 'mixed')
             for p in list(sc.src):
                 if p and rng.random() < 0.5 and not any(q.startswith(p + '/') for q in sc.dest):
@@ -138,7 +138,7 @@ def check(run):
             scen.append(sc)
         # fault injection: every operation index of small scenarios
         faulty = []
-        for sc in scen[:60 if quick else 400]:
+        for sc in scen[:60 if quick else 2000]:
             if sc.dry or sc.placement != 'LL':
                 continue
             for k in range(0, 6):
